@@ -16,7 +16,7 @@ import (
 type e1Step struct {
 	K string `json:"k"`
 	// log-producing steps
-	S    int    `json:"s,omitempty"`    // session ordinal
+	S    int    `json:"s,omitempty"`    // session ordinal ({nicka}/{nickb} in Data: current nickname of this / the previous step's session)
 	Data string `json:"d,omitempty"`    // IRC line / quit message / TOML
 	Cmid uint64 `json:"cmid,omitempty"` // explicit client message id (0 = automatic)
 	Addr string `json:"addr,omitempty"`
@@ -392,9 +392,45 @@ func (e1Engine) Generate(seed uint64, prop, tier string) (json.RawMessage, error
 		n = g.Range(150, 400)
 	}
 	faulty := !g.Chance(1, 5) // fault-free runs are kept as a separate configuration
+	// snippet: an actor gains a right, loses it, and tries to use it afterwards (C13's interesting histories)
+	lostRight := func() {
+		if nsess < 2 {
+			return
+		}
+		a, b := g.Intn(nsess), g.Intn(nsess)
+		if a == b || a == svc || b == svc {
+			return
+		}
+		c := g.Pick(e1Chans)
+		lc := c
+		if g.Chance(1, 2) {
+			lc = strings.ToLower(c)
+		}
+		add(e1Step{K: "line", S: a, Data: "JOIN " + c})
+		add(e1Step{K: "line", S: b, Data: "JOIN " + c})
+		if g.Chance(1, 2) {
+			add(e1Step{K: "line", S: a, Data: "MODE " + lc + " " + g.Pick([]string{"-t", "-t", "+i", "+k k1", "+b *!*@*", "-n", "+o {nickb}"})})
+		}
+		switch g.Intn(4) {
+		case 0:
+			add(e1Step{K: "line", S: b, Data: "PART " + lc})
+		case 1:
+			add(e1Step{K: "line", S: a, Data: "KICK " + lc + " {nickb} :out"})
+		case 2:
+			add(e1Step{K: "line", S: a, Data: "MODE " + lc + " -o {nicka}"})
+			b = a
+		default:
+			add(e1Step{K: "line", S: b, Data: "NICK " + pickNick(g)})
+		}
+		for k := 0; k < g.Range(1, 3); k++ {
+			add(e1Step{K: "line", S: b, Data: g.Pick([]string{"TOPIC " + lc + " :taken over", "TOPIC " + lc + " :", "MODE " + lc + " +i", "MODE " + lc + " -k k1", "MODE " + lc + " +o {nickb}", "KICK " + lc + " {nicka} :revenge", "INVITE " + pickNick(g) + " " + lc, "JOIN " + lc, "JOIN " + lc + " k1", "PRIVMSG " + lc + " :still here?", "MODE " + lc + " +b x!*@*"})})
+		}
+	}
 	for i := 0; i < n; i++ {
 		r := g.Intn(1000)
 		switch {
+		case r < 40:
+			lostRight()
 		case r < 560:
 			s := g.Intn(nsess)
 			if s == svc && !g.Chance(1, 20) {
@@ -461,8 +497,10 @@ func (e1Engine) Generate(seed uint64, prop, tier string) (json.RawMessage, error
 			add(st)
 		case r < 960:
 			add(e1Step{K: "restart", N: g.Range(1, sc.Nodes-1)})
-		case r < 975:
+		case r < 968:
 			add(e1Step{K: "install", N: g.Range(1, sc.Nodes-1), From: g.Range(1, sc.Nodes-1)})
+		case r < 975:
+			add(e1Step{K: "selfrestore", N: g.Range(1, sc.Nodes-1)})
 		case r < 1000:
 			add(e1Step{K: "cycle", N: g.Range(1, sc.Nodes-1)})
 		}
